@@ -502,7 +502,7 @@ func c12(c *Ctx) {
 	// routing corpus as acceptance probes
 	lit := 0
 	for bi := range corpus.BaseVariants {
-		for _, sub := range []string{"main", "noslash", "pathquery", "bodyquery", "shared"} {
+		for _, sub := range []string{"main", "noslash", "pathquery", "bodyquery", "bodymap", "shared"} {
 			f, _ := corpus.RoutingFile(bi, sub, fmt.Sprintf("c12r.b%d%s", bi, sub), "lab/gen/c12r", "c12r", &lit, false)
 			req, err := spec.Request([]*spec.File{f}, nil, "")
 			if err != nil {
